@@ -60,7 +60,16 @@ class C26(Prop):
              "recognised ONLY if it is what Encode writes for the decoded path and start (full strength, all zones and "
              "formats). The model is tied to the code by running the real Encode/Decode on generated formats, names, "
              "instants, fixed and 12 real zones (around every offset change of 2019-2031 +-2 h at 1-minute steps, gap "
-             "readings, mutated names) and comparing inside Coq.",
+             "readings, mutated names) and comparing inside Coq. The finder of segment.go (FindSegments, "
+             "fixedPathHasSegments, regexpPathFindPathsWithSegments) is modelled as far as names go: %path substituted "
+             "first, filepath.Abs/Clean afterwards (Clean transliterated for rooted Unix paths), matched against the clean "
+             "name WalkDir reports for the recorder's file; proved for every record path, working directory and every "
+             "name IsValidPathName accepts: the finder's format depends on the name only through its non-empty elements "
+             "(runs of slashes such as site//cam1, the only thing Clean changes in a valid name), so a name and its clean "
+             "form get the same answer; the clean-first order is refuted (site//cam1: the recorder's own file not found). "
+             "Tied to the code by creating segment files on a real directory tree the way the recorder does and "
+             "running the three finder functions: every written segment of a valid name is found again under that "
+             "name and under every name with the same elements, nothing else is.",
         note="Found and fixed: the pattern was compiled without anchors (fix 2b44fe1); Decode accepted fields Encode never "
              "writes - month 13, +0000, disagreeing duplicates, gap readings (fix: re-encode comparison). Known findings "
              "kept: the repeated hour at the end of DST (two instants, one name; the recorder truncates the earlier file); "
@@ -83,9 +92,17 @@ class C26(Prop):
             "readings) and structural mutations (zdec), one sweep per offset change of 2019-2031 (thorough 2000-2037): +-2 h "
             "at 60 s (20 s) steps, run-length encoded (zsweep), one scan of Go's offset function per zone every 6 h (1 h) "
             "(zscan); candidates = encodings and their suffix/prefix/infix/delete/replace/double/truncate/field mutations "
-            "and random strings. Non-trivial = recognised; distinct = distinct (input, output) descriptions")
+            "and random strings; finder cases (find, n/30, at least 21): a fresh directory tree per case, 13 record path "
+            "shapes (relative/absolute, './', '..', doubled slashes in the literal part, %path as directories, glued to "
+            "literals, first), 2-6 valid path names per tree - clean ones and valid-but-not-clean ones (runs of 2-4 "
+            "slashes, dots inside elements), aliases with the same elements in the same tree -, 1-3 segment files each "
+            "created as the recorder does, the name asked for = a written one / its squeezed form / a slash-doubled "
+            "form / a fresh one; classes find-{clean-names,slash-runs,query-slash-runs}-{all-found,none,MISSING}. "
+            "Non-trivial = recognised; distinct = distinct (input, output) descriptions")
     trusted_base = ["Coq 8.16.1 kernel + VM (vm_compute for cases and the two calendar sweeps)",
                     "in-package Go driver zz_verif_c26_test.go",
+                    "model Model/C26_Finder.v (filepath.Abs/Clean for rooted Unix paths, the kernel + WalkDir reporting the "
+                    "lexically clean name of a file created without symlinks; IsValidPathName), tied by the find cases",
                     "models Model/C26_RecPath.v, Model/C26_Zone.v hand-written (time.Date transliterated from go1.26 src/time/time.go), "
                     "tied by correspondence (0 mismatches required)",
                     "oracle: Go's zone data through Time.Zone / Time.ZoneBounds (table of offset changes shipped per case; every "
@@ -98,7 +115,9 @@ class C26(Prop):
                    "theorems need wf_format: every '%' starts a placeholder, %path exactly once, at most one %z after %path",
                    "zone theorems need zone_ok B: |offset| <= B and successive offset changes more than 2B apart "
                    "(checked in Coq for every shipped table with B = 16 h)",
-                   "segment starts are held in time.Local (Encode formats p.Start in its own Location)"]
+                   "segment starts are held in time.Local (Encode formats p.Start in its own Location)",
+                   "finder: Unix path syntax, no symbolic links below the record directory, directories named before a "
+                   "'..' of the record path exist"]
 
     def known_class(self, case, entries):
         d = case.get("desc", {}) or {}
